@@ -28,15 +28,15 @@ def main(job_path, out_path):
             progen.write_package(prog, src, pkg=pkg, orders=pj["orders"])
             importlib.invalidate_caches()
             for mi in pj["import_order"]:
-                importlib.import_module("%s.%s" % (pkg, prog["modules"][mi]))
+                importlib.import_module("%s.%s" % (progen.pkg_of(prog, mi, pkg), prog["modules"][mi]))
             for nid in pj["query_order"]:
                 nd = prog["nodes"][nid]
-                fn = getattr(sys.modules["%s.%s" % (pkg, prog["modules"][nd["module"]])], nd["name"])
+                fn = getattr(sys.modules["%s.%s" % (progen.pkg_of(prog, nd["module"], pkg), prog["modules"][nd["module"]])], nd["name"])
                 res["versions"][nd["name"]] = fn.version()
             if pj.get("run_calls"):
                 for nid, x in pj["calls"]:
                     nd = prog["nodes"][nid]
-                    fn = getattr(sys.modules["%s.%s" % (pkg, prog["modules"][nd["module"]])], nd["name"])
+                    fn = getattr(sys.modules["%s.%s" % (progen.pkg_of(prog, nd["module"], pkg), prog["modules"][nd["module"]])], nd["name"])
                     side.take()
                     try:
                         r = ["ok", fn(x)]
